@@ -593,6 +593,23 @@ package badger
 //@   assert[range-of-picked] before call overlappingTables : cd.top == out && arg2.left == ret(getKeyRange#2).left && arg2.right == ret(getKeyRange#2).right
 //@   assert[registered-last] before return#3 : result == ret(compareAndAdd#1)
 
+// Discard: done once; the transaction's read is marked done in the read watermark (unless
+// timestamps are managed by the caller), which is what lets the conflict log and compactions
+// forget what only this transaction could still need.
+//@ func (*Txn).Discard
+//@   props C02 C34 C13
+//@   light
+//@   assert[read-marked-done-once] before call doneRead : !old(txn.discarded) && txn.discarded && arg0 == txn.db.orc && arg1 == txn && !txn.db.orc.isManaged
+//@   assert[second-discard-is-a-no-op] before return#1 : old(txn.discarded)
+
+// BanNamespace: the ban is persisted (written and applied) before the in-memory set is updated,
+// for the namespace given.
+//@ func (*DB).BanNamespace
+//@   props C28
+//@   light
+//@   assert[persisted-before-enforced] before call add : called(Wait#1) && ret(Wait#1) == nil && arg0 == db.bannedNamespaces && arg1 == ns
+//@   assert[key-of-this-namespace] before call U64ToBytes : arg0 == ns
+
 // ---- managed mode (C36) ----
 
 //@ func (*DB).NewTransactionAt
